@@ -37,7 +37,7 @@ TRUSTED = [
 ASSUMPTIONS = ["no handler vetoes player_add_request; no ball devices / ball save / ball search (fake-game scaffolding)",
                "handlers of lifecycle events do not raise"]
 
-KNOWN_SIGS = ("end-game-before-game-started", "late-player-add-at-turn-start")
+KNOWN_SIGS = ()
 GRID = 0.125
 LIFE = ["game_will_start", "game_starting", "game_started", "player_turn_will_start", "player_turn_starting",
         "player_turn_started", "ball_will_start", "ball_starting", "ball_started", "ball_will_end", "ball_ending",
@@ -122,6 +122,28 @@ class Real:
 
     def posted(self, event):
         g = self.machine.game
+        if event == "game_will_start" and g:
+            import asyncio
+            rec = self
+
+            class LoggedEvent(asyncio.Event):
+                """_start_game touches this event (set or clear) right after its `if self.ending: return`"""
+                seen = False
+
+                def _log(self):
+                    import sys as _sys
+                    if not self.seen and _sys._getframe(2).f_code.co_name == "_start_game":
+                        self.seen = True
+                        rec.env("startcheck")
+
+                def set(self):
+                    self._log()
+                    super().set()
+
+                def clear(self):
+                    self._log()
+                    super().clear()
+            g._at_least_one_player_event = LoggedEvent()
         p = g.player if g else None
         self.L.append(("ev", event, p.number if p else 0, p.ball if p else 0, self.snap()))
 
@@ -275,8 +297,8 @@ class Parser:
         self.in_ball_wait = False
         self.cur = 0
         self.players = 0
-        self.window_b0 = None    # inside player_turn_will_start..started of a turn: the player's ball count before it
-        self.late_add = False
+        self.start_checked = False
+        self.end_req_at_check = False
 
     def envs(self):
         """consume requests between lifecycle events, tracking what they mean for the numeric clauses"""
@@ -290,17 +312,20 @@ class Parser:
                     self.trigger = True
                 self.bip = snap[0]
                 self.players = snap[1]
+            if w[0] == "startcheck":
+                self.start_checked = True
+                if self.end_req:
+                    raise Reject("game-started-after-end-request", {"at": "start check"})
             if w[0] == "endball":
                 self.trigger = True
             elif w[0] == "endgame":
                 self.trigger = True
                 self.end_req = True
+                if not self.start_checked:
+                    self.end_req_at_check = True
             elif w[0] == "slam":
                 self.trigger = True
                 self.slam = True
-            elif w[0] == "playeradded" and self.window_b0 is not None and self.window_b0 >= 1:
-                # the guard `player.ball > 1` is evaluated before `player.ball += 1`: a player joins during ball 2
-                self.late_add = True
             elif w[0] == "extraball" and curnum:
                 self.extra[curnum] = self.extra.get(curnum, 0) + 1
             self.i += 1
@@ -334,9 +359,17 @@ class Parser:
     def game(self):
         self.expect("game_will_start", 0, 0)
         self.expect("game_starting")
-        self.expect("game_started", 1, 0)
-        while self.peek() == "player_turn_will_start":
-            self.turn()
+        nx = self.peek()
+        if not self.start_checked:
+            # end_game() before _start_game looked at `ending`: the game ends without having started (no player needed)
+            if not self.end_req_at_check:
+                raise Reject("game-start-abandoned-without-end-request", {"next": nx})
+            if nx != "game_will_end":
+                raise Reject("game-started-after-end-request", {"next": nx})
+        else:
+            self.expect("game_started", 1, 0)
+            while self.peek() == "player_turn_will_start":
+                self.turn()
         self.expect("game_will_end")
         self.expect("game_ending")
         self.expect("game_ended")
@@ -349,17 +382,13 @@ class Parser:
         if self.end_req:
             raise Reject("turn-after-end-request", {"at": self.i})
         p, b0 = nxt, self.ball_of.get(nxt, 0)
-        self.expect("player_turn_will_start", p, b0)
-        self.cur = p
-        self.window_b0 = b0
-        self.expect("player_turn_starting", p, b0)
-        b = b0 + 1
-        self.peek()
-        self.window_b0 = None
+        b = b0 + 1          # the ball number counts from the beginning of the turn
         if b > self.case["bpg"]:
-            raise Reject("late-player-add-at-turn-start" if self.late_add else "ball-number-exceeds-balls-per-game",
-                         {"player": p, "ball": b, "balls_per_game": self.case["bpg"]})
+            raise Reject("ball-number-exceeds-balls-per-game", {"player": p, "ball": b, "balls_per_game": self.case["bpg"]})
         self.ball_of[p] = b
+        self.expect("player_turn_will_start", p, b)
+        self.cur = p
+        self.expect("player_turn_starting", p, b)
         self.expect("player_turn_started", p, b)
         first = True
         while True:
@@ -414,9 +443,7 @@ def oracle(case, real, crash):
     first = [e for e in L[:cut] if e[0] in ("ev", "env")]
     try:
         if not real.over:
-            names = [x[1] for x in first]
-            early = "endgame" in names and ("game_started" not in names or names.index("endgame") < names.index("game_started"))
-            raise Reject("end-game-before-game-started" if early else "game-not-ended", {"trace_tail": names[-8:]})
+            raise Reject("game-not-ended", {"trace_tail": [x[1] for x in first][-8:]})
         ps = Parser(case, first)
         ps.game()
         if ps.i != len(first):
@@ -561,7 +588,10 @@ def corpus():
               "ops": [["addplayer"], ["setbip", 5], ["extraball"], ["drain", 1], ["adv", 12], ["setbip", -1], ["adv", 12]],
               "hooks": [{"event": "ball_ending", "prio": 100000, "max": 2, "acts": [["wait", 5], ["addplayer"]]},
                         {"event": "ball_starting", "prio": 1, "max": 2, "acts": [["wait", 2], ["endball"]]}]})
-    # known finding: a player added inside player_turn_starting of player 1's second turn (guard sees ball 1)
+    # (fixed) end_game() in a game_will_start handler: the game used to wait for its first player for ever
+    c.append({"kind": "game", "bpg": 3, "maxp": 2, "known": 3, "ops": [["adv", 4], ["addplayer"]],
+              "hooks": [{"event": "game_will_start", "prio": 1, "max": 1, "acts": [["endgame"]]}]})
+    # (fixed) a player added inside player_turn_starting of player 1's second turn (guard sees ball 1)
     c.append({"kind": "game", "bpg": 3, "maxp": 4, "known": 2, "ops": [["drain", 1], ["addplayer"]],
               "hooks": [{"event": "player_turn_starting", "prio": 100000, "max": 2, "acts": [["setbip", 0], ["wait", 5]]}]})
     return c
@@ -572,7 +602,7 @@ def run(ctx):
     try:
         for case in corpus():
             one_case(ctx, model, case)
-        for i in range(ctx.n(1200, 12000)):
+        for i in range(ctx.n(1000, 12000)):
             one_case(ctx, model, gen_case(ctx.rng("case", i)))
             if len([f for f in ctx.failures if f["signature"] not in KNOWN_SIGS]) >= 3:
                 break
